@@ -142,6 +142,38 @@ Proof.
     destruct H as [k ->]. rewrite Nat.even_mul in E. cbn in E. discriminate.
 Qed.
 
+(* ------------------------------------------------------------------ simulation between loops over different state types *)
+Definition res_rel {X Y} (R : X -> Y -> Prop) (a : res X) (b : res Y) : Prop :=
+  match a, b with Ok x, Ok y => R x y | Panic k, Panic k' => k = k' | _, _ => False end.
+
+Lemma res_rel_bind {X Y Z} (R : X -> Y -> Prop) (a : res X) (b : res Y) (f : X -> res Z) (g : Y -> res Z) :
+  res_rel R a b -> (forall x y, R x y -> f x = g y) -> bind a f = bind b g.
+Proof. destruct a, b; cbn; intros H Hf; try contradiction; [auto | now subst]. Qed.
+
+Lemma res_rel_bind2 {X Y X' Y'} (R : X -> Y -> Prop) (R' : X' -> Y' -> Prop) (a : res X) (b : res Y) f g :
+  res_rel R a b -> (forall x y, R x y -> res_rel R' (f x) (g y)) -> res_rel R' (bind a f) (bind b g).
+Proof. destruct a, b; cbn; intros H Hf; try contradiction; [auto | now subst]. Qed.
+
+Lemma for_from_sim {S1 S2} (R : S1 -> S2 -> Prop) n lo (b1 : nat -> S1 -> res S1) (b2 : nat -> S2 -> res S2) s1 s2 :
+  R s1 s2 ->
+  (forall i s1 s2, lo <= i < lo + n -> R s1 s2 -> res_rel R (b1 i s1) (b2 i s2)) ->
+  res_rel R (for_from n lo b1 s1) (for_from n lo b2 s2).
+Proof.
+  revert lo s1 s2; induction n as [|n IH]; intros lo s1 s2 H0 H; cbn [for_from]; [exact H0|].
+  apply (res_rel_bind2 R R); [apply H; [lia|exact H0]|].
+  intros x y Hxy. apply IH; [exact Hxy|]. intros; apply H; [lia|assumption].
+Qed.
+Lemma for_sim {S1 S2} (R : S1 -> S2 -> Prop) lo hi (b1 : nat -> S1 -> res S1) (b2 : nat -> S2 -> res S2) s1 s2 :
+  R s1 s2 ->
+  (forall i s1 s2, lo <= i < hi -> R s1 s2 -> res_rel R (b1 i s1) (b2 i s2)) ->
+  res_rel R (for_ lo hi b1 s1) (for_ lo hi b2 s2).
+Proof. intros H0 H. apply for_from_sim; [exact H0|]. intros; apply H; [lia|assumption]. Qed.
+
+Lemma res_rel_eq {X} (a b : res X) : a = b -> res_rel eq a b.
+Proof. intros ->. destruct b; cbn; reflexivity. Qed.
+Lemma res_rel_eq_inv {X} (a b : res X) : res_rel eq a b -> a = b.
+Proof. destruct a, b; cbn; intros H; try contradiction; now subst. Qed.
+
 (* ------------------------------------------------------------------ reads commute *)
 (* two steps that can only fail with an index panic may be performed in either order *)
 Definition idx_only {X} (e : res X) : Prop := (exists x, e = Ok x) \/ e = Panic Index.
@@ -172,6 +204,7 @@ Ltac src_rew :=
   | |- context [usub ?a ?b] => rewrite (usub_ok a b) by lia; cbn [bind]
   | H : ?e = Ok ?x |- context [bind ?e _] => rewrite H; cbn [bind]
   | |- context [bind (bind _ _) _] => rewrite bind_assoc
+  | |- context [bind (Ok _) _] => progress cbn [bind]
   end.
 
 (* one structural step of an equality between two monadic terms of the same shape *)
@@ -200,6 +233,8 @@ Ltac src_swap :=
       etransitivity; [ apply (bind_swap e1 e2); apply rd_idx_only | ]
   end.
 Ltac src_eq := repeat first [ progress src_rew | progress cbn [fst snd] | src_step ].
+(* the same, also re-ordering index-checked reads where the two sides perform them in a different order *)
+Ltac src_eq_swap := repeat first [ progress src_rew | progress cbn [fst snd] | src_step | src_swap ].
 
 (* ------------------------------------------------------------------ loops over lists: push / fold / tabulate / update in place *)
 Section ListLoops.
